@@ -19,6 +19,11 @@ Theorem C13_split_sum : forall total k : Z, 0 < k ->
 Proof. exact split_spec. Qed.
 Print Assumptions C13_split_sum.
 
+(* the only failure of the split is the division by a zero count (ZeroDivisionError, tagged E_OTHER) *)
+Theorem C13_split_zero_division : forall total k : Z, split_with_remainder total k = Raise E_OTHER <-> k = 0.
+Proof. exact split_zero. Qed.
+Print Assumptions C13_split_zero_division.
+
 (* ---- distribute_from_split_pool ---------------------------------------------------------------------- *)
 (* normal return with at least one zero-valued output: outputs + fee = inputs exactly, every pool output gets at least
    one satoshi, the pool values are split_with_remainder of what is left, every other output (and every script, the
@@ -55,6 +60,12 @@ Theorem C13_distribute_outcomes : forall (bc : tx -> Z) (t : tx) (fe : feearg),
   (distribute_from_split_pool bc t fe = Raise E_ATTR /\ In None (t_unspents t) /\ 0 < zero_count_of (t_outs t)).
 Proof. exact distribute_outcomes. Qed.
 Print Assumptions C13_distribute_outcomes.
+
+(* scope: without a zero-valued output nothing is checked or changed, whatever the fee and the funds *)
+Theorem C13_distribute_no_pool_is_identity : forall (bc : tx -> Z) (t : tx) (fe : feearg),
+  zero_count_of (t_outs t) = 0 -> distribute_from_split_pool bc t fe = Ret (t, 0).
+Proof. exact distribute_no_pool. Qed.
+Print Assumptions C13_distribute_no_pool_is_identity.
 
 (* ---- create_tx ------------------------------------------------------------------------------------------ *)
 (* with at least one unspecified payable: outputs + fee = sum of the spendables; the pool shares are
